@@ -1,0 +1,13 @@
+//go:build verif
+
+package peersync
+
+import "context"
+
+// Verification hook (build tag "verif" only).
+
+// VerifCleanupExpired runs one cleanup sweep, i.e. exactly what the poller's
+// cleanup ticker does on every tick.
+func (ps *PeerSync) VerifCleanupExpired(ctx context.Context) error {
+	return ps.poller.cleanupExpired(ctx)
+}
